@@ -16,9 +16,23 @@ static size_t s_isz, s_nh, s_static_cap;
 static unsigned s_next_uid;
 static struct aws_priority_queue_node s_nodes[MAXH];
 
+/* comparator styles: all of them honour the documented contract of aws_priority_queue_compare_fn ("positive if the
+ * second has higher priority, otherwise negative or zero") for the min-heap on the key byte, and nothing more */
+enum { CMP_THREE, CMP_BOOL, CMP_DIFF, CMP_LAZY };
+static int s_style;
+
 static int s_cmp(const void *a, const void *b) {
     uint8_t x = *(const uint8_t *)a, y = *(const uint8_t *)b;
-    return (x > y) - (x < y);
+    switch (s_style) {
+        case CMP_BOOL: /* the header's own example: `return a > b;` */
+            return x > y;
+        case CMP_DIFF: /* difference of the keys, large magnitude */
+            return ((int)x - (int)y) * 8388607;
+        case CMP_LAZY: /* positive when x > y; otherwise zero or negative with no relation to equality */
+            return x > y ? 5 + (int)y : (((x + y) & 1) ? -(int)(y - x) - 3 : 0);
+        default:
+            return (x > y) - (x < y);
+    }
 }
 
 static void s_fill(uint8_t *p, unsigned key, unsigned uid) {
@@ -208,8 +222,21 @@ int main(void) {
     while ((n = hc_next_line(t)) >= 0) {
         if (!strcmp(t[0], "case")) {
             s_reset();
+            s_style = CMP_THREE;
             hc_case_begin(t[1]);
             alarm(2); /* watchdog: a case takes milliseconds; a hang is reported as a crash of this case */
+        } else if (!strcmp(t[0], "cmp") && n == 2) {
+            if (!strcmp(t[1], "three")) {
+                s_style = CMP_THREE;
+            } else if (!strcmp(t[1], "bool")) {
+                s_style = CMP_BOOL;
+            } else if (!strcmp(t[1], "diff")) {
+                s_style = CMP_DIFF;
+            } else if (!strcmp(t[1], "lazy")) {
+                s_style = CMP_LAZY;
+            } else {
+                printf("bad-op\n");
+            }
         } else if (!strcmp(t[0], "init") && n == 5) {
             size_t cnt = hc_parse_size(t[2]);
             size_t isz = (size_t)atol(t[3]);
